@@ -3,7 +3,10 @@
 //        extract const <file.go> <name>               string constant      -> its value, one line, Go-quoted
 //        extract map <file.go> <var>                  map composite literal -> one "key<TAB>value" line per entry, sorted
 //                                                     (string literals unquoted, identifiers/other expressions as source text)
-// Supported: parameters of type int; a body that is a sequence of
+//        extract fn <file.go> <Name[,Name...]> <prefix>  first-order functions over strings, ints, bools, slices and
+//                                                     structs (fn.go; tools/notes/Translator.md)
+//        extract src <file.go> <Name>                 the Go text of a function
+// Supported by the first mode: parameters of type int; a body that is a sequence of
 //   if <cond> { return <expr> }   (optionally with else { return <expr> } / else if ...)
 // ended by `return <expr>`; cond over ==, !=, <, <=, >, >=, &&, ||, !, parentheses;
 // expr over identifiers, integer literals, +, -, *, parentheses.
@@ -192,8 +195,16 @@ func main() {
 		tables()
 		return
 	}
+	if len(os.Args) == 5 && os.Args[1] == "fn" {
+		fnMode()
+		return
+	}
+	if len(os.Args) == 4 && os.Args[1] == "src" {
+		srcMode()
+		return
+	}
 	if len(os.Args) != 4 {
-		die("usage: extract file.go func coqname")
+		die("usage: extract file.go func coqname | extract const|map file.go name | extract fn file.go Name[,Name...] prefix | extract src file.go Name")
 	}
 	fset := token.NewFileSet()
 	f, err := parser.ParseFile(fset, os.Args[1], nil, 0)
